@@ -195,16 +195,24 @@ pub fn run(ctx: &mut Ctx) {
             continue;
         }
         let mut rng = ctx.case_rng("precedence", subset as u64);
-        for variant in 0..12usize {
+        // 12 rotations of the value kinds x {default given, none} x {disMacro is a pattern, any kind} (so that no
+        // two choices are tied to each other through the variant number), then 24 fully random assignments
+        for variant in 0..72usize {
+            let random = variant >= 48;
+            let k = variant % 12;
+            let opt = variant / 12;
+            let with_default = if random { rng.coin() } else { opt % 2 == 0 };
+            let macro_pattern = if random { rng.coin() } else { (opt / 2) % 2 == 0 };
             let mut d = Dict::new();
             for (bit, tag) in CHAIN.iter().enumerate() {
                 if subset & (1 << bit) != 0 {
-                    let v = if *tag == "disMacro" && variant % 2 == 0 {
+                    let v = if *tag == "disMacro" && macro_pattern {
                         Value::make_str(&gen_pattern(&mut rng))
-                    } else if *tag == "disKey" && variant % 3 == 0 {
-                        Value::make_str(if variant % 2 == 0 { "kLocal" } else { "nolocal" })
+                    } else if *tag == "disKey" && (if random { rng.coin() } else { k % 3 == 0 }) {
+                        Value::make_str(if (k + opt) % 2 == 0 { "kLocal" } else { "nolocal" })
                     } else {
-                        value_of_kind(&mut rng, variant + bit)
+                        let kind = if random { rng.below(12) } else { k + bit };
+                        value_of_kind(&mut rng, kind)
                     };
                     d.insert(tag.to_string(), v);
                 }
@@ -213,7 +221,7 @@ pub fn run(ctx: &mut Ctx) {
             d.insert("ab".into(), Value::make_number(7.0));
             d.insert("pwr".into(), Value::make_number_unit(72.5, crate::bridge::unit_by_name("kilowatt").unwrap()));
             d.insert("siteRef".into(), Value::make_ref_with_dis("s1", "Site One"));
-            let default = if variant % 2 == 0 { Some("DEFAULT") } else { None };
+            let default = if with_default { Some("DEFAULT") } else { None };
             ctx.eval("precedence", crate::prng::mix(&[subset as u64, variant as u64]), true);
             let want = ref_dis(&d, default);
             match catch(|| lib_dis(&d, default)) {
